@@ -4,8 +4,10 @@ NOTES = ('Technique family: machine-checked proof in Lean 4. See DESIGN.md. Ever
          'Lean sources from /repo, rebuilds the theorems, audits axioms, runs model-vs-code correspondence and a '
          'failing-input search on the real code. No hook commits exist (nothing in /repo is instrumented). Genuine '
          'defects repaired by unguarded fix: commits in /repo (listed with the failing input in known_findings.json): '
-         '530162f, dd96fb5, a7b9e52, f840eca, 99f909c, fa487bb; recorded known findings: C05 gauss_log 15/31 tables, '
-         'C09 seam pair on one piece, C17 cache key ignores the operator configuration.')
+         '530162f, dd96fb5, a7b9e52, f840eca, 99f909c, fa487bb, 34f0fd3 (cache key carries the configuration), c43535a '
+         '(gauss_x_quadrature_scheme, even degrees); recorded known findings: C05 gauss_log 15/31 tables, C09 seam pair on '
+         'one piece, C04 evaluate_exact loses positivity far from the element at short times, C19 grading runs away on '
+         'strongly unequal initial time slabs.')
 NOT_APPLICABLE = []
 _PENDING = ['C01', 'C02', 'C03', 'C04', 'C05', 'C06', 'C07', 'C08', 'C09', 'C10', 'C11', 'C12', 'C14', 'C16', 'C17',
             'C18', 'C19', 'C20']
@@ -257,3 +259,38 @@ for p in _PENDING:
     if p not in [c['id'] for c in CHECKS]:
         NOT_APPLICABLE.append(dict(property_id=p, reason='check under construction in this build phase (see DESIGN.md '
                                    'section 6 for the planned treatment); not yet claimed'))
+
+
+# ---- additions of session 3 (appended to the entries above) -------------------------------------------------------------
+_MESHOPS = ('; the refinement drivers of src/mesh.py (refine, uniform_refine*, dorfler_refine_*, refine_grading, Prolongate, '
+            'MeshParametrized.__init__) are regenerated from source each run (translate/meshops.py) and proved equal to the '
+            'model (Props/MeshOpsTie* gen_*_eq); generated twins answer every mesh request of the correspondence')
+_ADD = {
+    'C02': dict(technique=_MESHOPS, text=' Search additions: several Mesh objects alive at once with interleaved operations; grids '
+                'not starting at 0; MeshParametrized meshes with bookkeeping (index uniqueness over the whole tree) after every operation.'),
+    'C06': dict(technique=_MESHOPS),
+    'C19': dict(technique=_MESHOPS, text=' Known finding F12: the shipped loop runs away on initial_time_mesh=[0,1/64,1], sigma=1 '
+                '(reproduced under a bisection budget on every run).'),
+    'C18': dict(technique=_MESHOPS),
+    'C20': dict(technique=_MESHOPS),
+    'C04': dict(technique='; sign: Lean 4 theorems that the generated time kernels (guards included) are the single / double time '
+                'integral of the causal heat kernel, >= 0 and > 0 exactly on causal arguments, and that the quadrature sums of the '
+                'model are >= 0 for non-negative rules (Props/C04Sign.lean) + pointwise sign search with a rigorous lower bound',
+                text=' Sign (exact arithmetic): with exp = Real.exp, Ei\' = e^x/x on x<0, Ei -> 0 at -infinity (satisfied by a Lean '
+                'model built from the integral of e^t/t) the generated sl_tik and sl_dtk are the time integrals of the heat kernel '
+                '(dtk_eq_integral), are >= 0 and > 0 iff t > a resp. b > c; bilform (quadrature path), evaluate and potential are '
+                'finite sums of such values with weights >= 0 (preserved by mirror, product, Duffy) and hence >= 0, > 0 for every '
+                'causal pair with the real kernels (bilform_quad_real_pos). Not covered: the sign of the closed-form (erf) path and '
+                'binary64 cancellation (known finding F11: evaluate_exact returns -1.9e-19 where the exact value is 2.5e-21).'),
+    'C05': dict(technique='; scheme-constructor key maps regenerated and proved: requested degree <= certified degree of exactness for '
+                'every accepted request (ctor_requested_ok_*); request sweep over tabulated and non-tabulated keys on the real functions',
+                text=' Constructors: the key maps N = (N_poly + a)//b + c and odd-degree assertions of src/quadrature.py are regenerated; '
+                'for every degree a constructor accepts and every table entry it can hand out, the degree is at most the certified '
+                'degree of exactness (this obligation is refuted by the kernel on the pinned gauss_x map: finding F10, repaired).'),
+    'C17': dict(text=' After the repair of F7 the hashed text ends with str((quad_order, pw_exact)): the key is injective on (curve, '
+                'tests, trials, configuration text), operators that differ in configuration never share a file '
+                '(cache_transparent_across_configs); the unrepaired key is kept with kernel-checked negation witnesses.'),
+}
+for _c in CHECKS:
+    for _k, _v in _ADD.get(_c['id'], {}).items():
+        _c[_k] = _c[_k] + _v
